@@ -139,6 +139,14 @@ def final(h: Any, e: Any, state: dict[str, Any]) -> None:
         for (tag, kind), nn in all_kinds.items():
             if kind == "timeout" and nn > 1 and not h.spec.resume:
                 h.violate("timeout_raised_twice", wit0, f"input Work#{uid} wait{tag!r}: TimeoutError raised {nn} times")
+    # --- no program step raises (TimeoutError is caught by the step): the run must never end with an exception, e.g. because a
+    # timeout tick arrived for a wait that had been answered long before
+    from vmc.engine import task_outcome
+
+    out = task_outcome(state["hd"]._result_task)
+    if out[0] == "exception":
+        h.violate("run_fails_although_no_step_raises", {**wit0, "got": type(out[1]).__name__},
+                  f"the run ended with {out[1]!r}; ticks {[type(t).__name__ for t in h.ticks][-6:]}")
     # --- waiter_event published once per waiter id (per run segment: a resumed run re-registers nothing)
     asks = Counter(ev.uid for ev in h.published if isinstance(ev, Ask))
     for k, nn in asks.items():
